@@ -64,6 +64,15 @@ def law_cases():
     cases += [
         ("do 1 / 0 catch 'divide by zero' 'wrong' catch 'ERROR' 'right' end", ('text', "'right'")),
     ]
+    # many errors in one session: whatever bookkeeping a call or a block keeps, the 400th failing call behaves like the first
+    # (errors leaving functions at depth 1..3, handlers by value, finally parts counted)
+    cases += [
+        ("def f(k) if k == 0 then error 'orig' else f(k - 1); def n = 0; for i in range(400) do do f(i % 3) catch 'orig' n += 1 end end; n", ('text', "400")),
+        ("def f(k) if k == 0 then 1 / 0 else f(k - 1); def n = 0; def m = 0; for i in range(400) do do f(i % 3) catch 'ERROR' n += 1 finally m += 1 end end; [n, m]", ('text', "[400, 400]")),
+        ("def g() error [1]; def n = 0; def i = 0; while i < 400 do i += 1; do do g() finally n += 1 end catch [1] n += 1 end end; n", ('text', "800")),
+        ("def o = <*m = fn(self, k) if k == 0 then error self else self->m(k - 1)*>; def n = 0; for i in range(300) do do o->m(2) catch o n += 1 end end; n", ('text', "300")),
+        ("def n = 0; for i in range(300) do do (fn(x) x / 0)(i) catch 'ERROR' n += 1 end end; def ok(x) x + 1; [n, ok(1)]", ('text', "[300, 2]")),
+    ]
     # an error on its way out of a call stays the same error whatever the call's ARGUMENTS are: values whose own rendering fails,
     # is user-defined or is long must not replace it, change it or make the handler miss it (built-in and user functions, methods,
     # nested calls; handlers by value at every level)
